@@ -39,7 +39,7 @@ BUDGET = {"quick": 1200, "thorough": 8000}
 REQUIRED_CLASSES = {
     "fired:runner-abort": 10, "fired:conn-error": 10, "fired:param-source": 10, "fired:runner-raises": 10, "fired:store-once": 10,
     "fired:store-persistent": 10, "fired:prep-task": 10, "fired:kill-worker": 10, "fired:cancel": 10, "no-fault": 8,
-    "strict-task-beside-tolerant-task": 8, "tolerated-by-task": 5, "exception-without-message": 10, "raised-outside-executor": 5,
+    "strict-task-beside-tolerant-task": 8, "tolerated-by-task": 5, "api-key-per-client-and-cluster-gone": 5, "exception-without-message": 10, "raised-outside-executor": 5,
 }
 TIMES = [0.5, 2.0, 6.5, 9.0, 14.0, 25.0, 45.0]
 
@@ -63,6 +63,7 @@ def _case(draw):
     ordinal = draw(st.sampled_from([0, 0, 1, 2, 5]))
     case["on_error"] = "continue"
     fault = None
+    force_api_keys = False
     if kind == "runner-abort":
         case["on_error"] = "abort"
         fault = {"kind": "runner", "task": leaf["name"], "client": client, "ordinal": ordinal, "outcome": draw(st.sampled_from(["api-5xx", "fail-dict", "api-4xx", "timeout"]))}
@@ -85,7 +86,13 @@ def _case(draw):
         elif tol == "faulted":
             leaf["tolerant"] = True
     elif kind == "conn-error":
-        fault = {"kind": "runner", "task": leaf["name"], "client": client, "ordinal": ordinal, "outcome": "conn-error"}
+        fault = {"kind": "runner", "task": leaf["name"], "client": client, "ordinal": ordinal, "outcome": "conn-error",
+                 # the connection error is what a client sees of a cluster that has died: from then on nobody reaches it, the driver's own
+                 # (synchronous) client included
+                 "cluster_down": False}
+        flavour = draw(st.sampled_from(["plain", "cluster-gone", "cluster-gone+api-keys", "cluster-gone+api-keys"]))
+        fault["cluster_down"] = flavour != "plain"
+        force_api_keys = flavour.endswith("api-keys")
     elif kind == "runner-raises":
         case["on_error"] = draw(st.sampled_from(["continue", "abort"]))
         fault = {"kind": "runner", "task": leaf["name"], "client": client, "ordinal": ordinal, "outcome": draw(st.sampled_from(["raise-key", "raise-runtime", "raise-assert"]))}
@@ -156,6 +163,7 @@ def _case(draw):
         kind = "store-once"
     case["fault"] = fault
     case["fault_class"] = kind
+    case["api_keys"] = draw(st.sampled_from([False, False, True])) or force_api_keys  # client option create_api_key_per_client
     return case
 
 
@@ -192,6 +200,10 @@ def run_case(case, obs):
         obs.cls("no-fault" if fault is None else f"not-fired:{kind}")
         return
     obs.cls(f"fired:{kind}")
+    if case.get("api_keys"):
+        obs.cls("api-key-per-client")
+        if fault and fault.get("cluster_down"):
+            obs.cls("api-key-per-client-and-cluster-gone")
     if fault and fault.get("exc", "runtime") != "runtime":
         obs.cls("exception-without-message")
     if fault and fault.get("where") == "partition":
